@@ -1150,6 +1150,8 @@ class Interp:
         ctx = self.ctx
         op = n["opcode"]
         sub = kids(n)[0]
+        if op == "__extension__":
+            return self.expr(sub)     # GNU marker (glibc's assert expansion): no semantics
         if op == "!":
             return z3.Not(self.truth(self.expr(sub)))
         if op in ("++", "--"):
@@ -1217,6 +1219,8 @@ class Interp:
 
     def assign(self, loc, v, n):
         ctx = self.ctx
+        if isinstance(v, Ptr) and v.target is None and getattr(self.k, "int_pointers", False):
+            v = z3.IntVal(0)      # pointers modelled as integer ids: nullptr is id 0
         if isinstance(loc, Loc):
             if not isinstance(loc, ArrLoc) and isinstance(ctx.store.get(loc.key), Opt) and not isinstance(v, Opt):
                 v = Opt(z3.BoolVal(True), v)  # optional<T> = T
@@ -1529,6 +1533,8 @@ class Interp:
                 base = base.target
             elif hasattr(base, "arrow"):
                 base = base.arrow(self)
+            elif isinstance(base, z3.ExprRef) and hasattr(self.k, "deref_int"):
+                base = self.k.deref_int(self, base, n)
             else:
                 raise Gap("-> call on %r (line %s)" % (base, extract.line_of(n)))
         obj = base
@@ -1828,6 +1834,21 @@ class Interp:
         if h is None:
             raise Gap("subscript on %r" % (base,))
         return h(self, idx, n)
+
+    def e_PredefinedExpr(self, n):
+        return z3.IntVal(0)       # __func__ / __PRETTY_FUNCTION__: message text only
+
+    def e_CXXNewExpr(self, n):
+        h = getattr(self.k, "new_expr", None)
+        if h is None:
+            raise Gap("new-expression at line %s" % extract.line_of(n))
+        return h(self, n)
+
+    def e_CXXDeleteExpr(self, n):
+        h = getattr(self.k, "delete_expr", None)
+        if h is None:
+            raise Gap("delete-expression at line %s" % extract.line_of(n))
+        return h(self, self.ctx.rv(self.expr(kids(n)[0])), n)
 
     def e_UnaryExprOrTypeTraitExpr(self, n):
         raise Gap("sizeof/alignof at line %s" % extract.line_of(n))
